@@ -40,6 +40,14 @@ CLAIMS = {
    text="The pseudo-register layout table (19 words, 143 slots, shadow lists) is regenerated from register.h on every run and the theorems are re-checked over the regenerated table: slots lie inside 16 bits and are pairwise disjoint; under the hardware-width invariant, writing a word and reading it back returns the written value on all writable bits, every member outside the word is unchanged, read-only members are unchanged (with the explicit write-one-to-clear exception of the loop flag, whose refuting witness is proved), a member visible in two words reads the same in both, the TeakLite limit flag is the OR of the two Teak limit flags and writing it sets both, the accumulator-extension nibble round-trips; and the ar/arp words mean the same register, step and offset to the interpreter's fields, the disassembler's decoding and the generator's expressions (translated from test_generator.cpp). Tied to the C++ exhaustively: all 65536 values into each of the 19 words from several base states on a real RegisterState, and the disassembler's ar/arp annotation over all 65536 values.",
    note=NOTE_COMMON + " The layout table itself is produced by tools/translate_regs.py (fails loudly on unknown syntax); findings that contradict a literal reading (lp write-one-to-clear changes the read-only bcn bits; AccE write-back rewrites bits 36-39; Get does not mask over-wide members) are proved as witnesses and listed in DESIGN.md.",
    tech="translator-regenerated Lean table + kernel-checked checker (decide +kernel) with soundness lemmas + exhaustive correspondence", ref="§7 C20"),
+ "C10": dict(
+   text="Kernel-checked theorems over the model of StepAddress/RnAndModify/RnAddress: a zero step never changes the address; with modulo not in effect every step kind adds exactly its amount modulo 2^16 (incl. the configured 7/9/16-bit steps); with modulo in effect, +1/-1 are the cyclic successor/predecessor on the aligned buffer [base, base+mod] in both the Teak and TeakLite-compatible branches, never alter bits above the mask the branch uses, keep the address in the buffer, are mutually inverse and have period mod+1 - for every 16-bit mod, every address, both modes; bit reversal is an involution and yields the reversed old register as the address while the register steps linearly; RnAndModify returns the pre-modified value, changes only r[unit], and zeroes r3/r7 in end-pointer mode (the stated exception to 'a zero step never changes the register'). The literal 'never alters bits above the power-of-two alignment' is refuted for the +-2 kinds in TeakLite mode by a proved witness (mask widened by the step), with the partial theorem stating exactly where it holds. Tied to the C++ by direct calls of the real RnAndModify/RnAddress over every modulo value x both modes x all step kinds x start addresses around the buffer, plus the addressing instruction families.",
+   note=NOTE_COMMON,
+   tech="Lean 4 theorems (case split over mask widths, omega) + helper sweep + instruction-level correspondence", ref="§7 C10"),
+ "C05": dict(
+   text="Kernel-checked theorems about the assembler construction of parser.cpp for an ARBITRARY token function (parsing a renderable opcode's token list returns the least opcode with that text and its expansion status; unknown lists are invalid; the build aborts exactly on a violated bit-superset condition; under 'same text only if same table entry and operands, differing in unused bits' the assembled opcode decodes, executes and prints identically) and about the C binding (returns the text length, writes only inside the buffer, NUL directly after the copied text, nothing for size 0). The disassembler's text (disassembler.cpp) is NOT modelled: the finite fact 'same text only if they differ in unused bits' over all 65536 first words, Do = joined tokens, Parse = least opcode of the group, second-word printing, are established on every run by complete enumeration of the real code (a golden token pin detects text changes that stay injective); the C binding is run for every buffer size 0..64 with canaries; the four hwtest firmware sources are assembled with the real makedsp1 and compared byte-for-byte with the shipped binaries, disassembled and re-assembled.",
+   note=NOTE_COMMON + " For the token text the assurance is exhaustive enumeration of a finite table on the real code (first words complete, second words sampled), not a theorem about disassembler.cpp.",
+   tech="Lean 4 theorems about the parser construction and C binding + complete enumeration of the first-word table on the real code", ref="§7 C05"),
 }
 
 PENDING = "not claimed yet: model and theorems for this property are still being built (DESIGN.md §10 staging); no check is registered until it is green on the unchanged tree"
